@@ -123,7 +123,7 @@ let run_case (a : string array) : string =
       (sp <> None && clean_fmt fmt && in64 t && nonneg && (Z.compare fs e15 = Lt))
   | "parse" | "fp" ->
     (* parse <zid> <fmt hex> <input hex> [EXP t fs | REJ]      (C09)
-       fp    <zid> <fmt hex> <t> <fs>                          (C07: format then parse) *)
+       fp    <zid> <fmt hex> <t> <fs> [<parse zid>]            (C07: format then parse) *)
     let e = get a.(1) in
     let fmt = bytes_of_hex a.(2) in
     let show = function Some (t, f) -> "1 " ^ string_of_z t ^ " " ^ string_of_z f | None -> "0" in
@@ -154,14 +154,18 @@ let run_case (a : string array) : string =
       out m s p
     end else begin
       let t = zi a 3 in let fs = zi a 4 in
+      (* optional 6th field: the zone handed to parse() ("any zone"); default UTC *)
+      let with_pz k = if Array.length a > 5 then with_model (get a.(5)) (fun pz -> k (Some pz)) else k None in
       let m = with_model e (fun z ->
         match Lazy.force utc_zone with
         | Err er -> "ERR:" ^ string_of_err er
         | OK u ->
+          with_pz (fun pzo ->
+          let pz = (match pzo with Some pz -> pz | None -> u) in
           show_res show
             (bind (break_time z Z0 t) (fun (al, _) ->
              bind (format_impl strftime_o fmt al fs t) (fun txt ->
-             parse_impl strptime_o u u fmt txt)))) in
+             parse_impl strptime_o pz u fmt txt))))) in
       let p = (match Lazy.force e.sz with
         | Some s when Lazy.force e.wf ->
           (match spec_lookup s t with
